@@ -45,7 +45,7 @@ static void check_history(const HistC &h, vf::Obs &o) {
   o.cls("length:" + std::to_string(std::min<size_t>(h.ops.size() / 10 * 10, 200)) + "+");
   if (in.moves_seen) o.cls("has-move");
   if (in.throws_seen) o.cls("has-throwing-call");
-  bool nt = (g_focus == hist::F_C02 || g_focus == hist::F_C15) ? (in.moves_seen + in.throws_seen > 0 || in.nt_c14) : g_focus == hist::F_C09 ? in.nt_c09 : g_focus == hist::F_C10 ? in.nt_c10 : g_focus == hist::F_C14 ? in.nt_c14 : (in.nt_c09 || in.nt_c10 || in.nt_c14);
+  bool nt = (g_focus == hist::F_C02 || g_focus == hist::F_C15) ? (in.moves_seen + in.throws_seen > 0 || in.nt_c14) : g_focus == hist::F_C08 ? in.nt_c08 : g_focus == hist::F_C09 ? in.nt_c09 : g_focus == hist::F_C10 ? in.nt_c10 : g_focus == hist::F_C14 ? in.nt_c14 : (in.nt_c09 || in.nt_c10 || in.nt_c14);
   o.nt(nt);
   if (in.failed) o.fail(in.why);
 }
@@ -59,7 +59,7 @@ static rc::Gen<OpC> gen_op() {
         {6, S_NEW}, {1, S_NEW_INVALID}, {1, S_EMPTY}, {2, S_WHOLE}, {1, S_COPY}, {2, S_MOVE}, {1, S_ASSIGN}, {1, S_MOVE_ASSIGN}, {1, S_SELF_ASSIGN}, {2, S_UNION}, {2, S_INTERSECT}, {3, S_ACCESS}, {2, S_CONVERT},
         {10, P_NEW}, {1, P_NEW_BADCOUNT}, {1, P_EMPTY}, {3, P_COPY}, {3, P_MOVE}, {2, P_ASSIGN}, {2, P_MOVE_ASSIGN}, {1, P_SELF_ASSIGN}, {1, P_SELF_MOVE_ASSIGN}, {3, P_CROSS_ASSIGN},
         {2, P_SCALE}, {1, P_DIV}, {1, P_NEG}, {3, P_ISCALE}, {2, P_IDIV}, {4, P_ADD}, {3, P_SUB}, {4, P_MUL}, {5, P_IADD}, {4, P_ISUB}, {3, P_LINCOMB}, {1, P_LINCOMB_BAD},
-        {4, P_APPLY}, {6, P_APPLY_SPLINEOP}, {2, P_LINFORM}, {3, P_BILFORM}, {4, P_EVAL}, {1, P_PRED}, {1, P_FRONTBACK}, {3, P_MOVE_REUSE}, {6, P_EVAL_MUTATE}, {3, P_INTERPOLATE}});
+        {4, P_APPLY}, {6, P_APPLY_SPLINEOP}, {2, P_LINFORM}, {3, P_BILFORM}, {4, P_EVAL}, {1, P_PRED}, {1, P_FRONTBACK}, {3, P_MOVE_REUSE}, {6, P_EVAL_MUTATE}, {3, P_INTERPOLATE}, {4, P_REGRID}});
     o.a = pick(0, 63); o.b = pick(0, 63); o.c = pick(0, 255); o.d = pick(0, 63);
     return o;
   });
@@ -69,8 +69,8 @@ int main(int argc, char **argv) {
   for (int i = 1; i + 1 < argc; i++)
     if (std::string(argv[i]) == "--focus") {
       std::string f = argv[i + 1];
-      g_focus = f == "C09" ? hist::F_C09 : f == "C10" ? hist::F_C10 : f == "C14" ? hist::F_C14 : f == "C02" ? hist::F_C02 : f == "C15" ? hist::F_C15 : hist::F_ALL;
-      g_prop = f == "C09" ? "C09" : f == "C14" ? "C14" : f == "C02" ? "C02" : f == "C15" ? "C15" : "C10";
+      g_focus = f == "C09" ? hist::F_C09 : f == "C10" ? hist::F_C10 : f == "C14" ? hist::F_C14 : f == "C02" ? hist::F_C02 : f == "C15" ? hist::F_C15 : f == "C08" ? hist::F_C08 : hist::F_ALL;
+      g_prop = f == "C09" ? "C09" : f == "C14" ? "C14" : f == "C02" ? "C02" : f == "C15" ? "C15" : f == "C08" ? "C08" : "C10";
       for (int j = i; j + 2 < argc; j++) argv[j] = argv[j + 2];
       argc -= 2;
       break;
